@@ -4,6 +4,8 @@ import (
 	"bytes"
 	"crypto/sha256"
 	"crypto/x509"
+	"io"
+	"net/http"
 	"regexp"
 
 	"encoding/hex"
@@ -805,4 +807,146 @@ func TestC03(t *testing.T) {
 		}
 	})
 	c03LongHistories(t)
+	// Options WITHOUT a getter: the library then downloads through its default getter (net/http's default transport,
+	// here replaced by one that serves a world's answers in process). What is downloaded that way is authenticated like
+	// anything else: an altered document with a stale signature, or one signed under an untrusted root, is refused.
+	gen.Direct(t, "no-getter-in-the-options", func(t *testing.T) {
+		if sh, _ := gen.Shard(); sh != 0 {
+			return // replaces a process-wide transport: one shard is enough
+		}
+		saved := http.DefaultTransport
+		defer func() { http.DefaultTransport = saved }()
+		for i, alt := range []string{"control", "tcb-status-altered-signature-stale", "qe-status-altered-signature-stale", "tcb-signed-under-an-untrusted-root", "qe-body-not-json"} {
+			w := gen.NewWorld(gen.NewPKI(gen.PKISpec{Seed: gen.PKISeeds[i%4]}), gen.NewStream(gen.Seed()+uint64(i), "c03nogetter"))
+			w.HonestCollateral()
+			// the honest documents say OutOfDate; the altered (unauthenticated) ones say UpToDate
+			if alt != "control" {
+				for k := range w.TcbInfo.Levels {
+					w.TcbInfo.Levels[k].Status = "OutOfDate"
+				}
+				for k := range w.QeID.Levels {
+					w.QeID.Levels[k].Status = "OutOfDate"
+				}
+			}
+			w.Build()
+			tu := gen.TcbInfoURL(w.FmspcHex())
+			switch alt {
+			case "tcb-status-altered-signature-stale", "qe-status-altered-signature-stale":
+				for _, u := range []string{tu, gen.QeIdentityURL} {
+					r := w.Resp[u]
+					r.Body = bytes.ReplaceAll(r.Body, []byte(`"OutOfDate"`), []byte(`"UpToDate"`))
+					w.Resp[u] = r
+				}
+			case "tcb-signed-under-an-untrusted-root":
+				f := gen.NewPKI(gen.PKISpec{Seed: "c03-nogetter-foreign"})
+				up := *w
+				up.TcbInfo.Levels = append([]gen.PlatformLevel{}, w.TcbInfo.Levels...)
+				for k := range up.TcbInfo.Levels {
+					up.TcbInfo.Levels[k].Status = "UpToDate"
+				}
+				w.Resp[tu] = gen.Response{Header: map[string][]string{gen.HdrTcbInfo: {gen.IssuerChainHeader(f.TcbSig, f.Root)}}, Body: gen.SignedBody("tcbInfo", up.TcbInfo.Render(), f.TcbSig.Key)}
+				q := *w
+				q.QeID.Levels = append([]gen.QeLevel{}, w.QeID.Levels...)
+				for k := range q.QeID.Levels {
+					q.QeID.Levels[k].Status = "UpToDate"
+				}
+				w.Resp[gen.QeIdentityURL] = gen.Response{Header: map[string][]string{gen.HdrQeID: {gen.IssuerChainHeader(f.QeSig, f.Root)}}, Body: gen.SignedBody("enclaveIdentity", q.QeID.Render(), f.QeSig.Key)}
+			case "qe-body-not-json":
+				r := w.Resp[gen.QeIdentityURL]
+				r.Body = []byte("<html>maintenance</html>")
+				w.Resp[gen.QeIdentityURL] = r
+			}
+			http.DefaultTransport = inProcessTransport{w.Resp}
+			ts := w.Times
+			o := &verify.Options{GetCollateral: true, TrustedRoots: w.PKI.Pool(), Now: &ts} // no Getter
+			gen.Eval()
+			v, hung := gen.CallWatch(100*time.Second, func() error { return verify.RawTdxQuote(w.Raw, o) })
+			gen.NonTrivial("no-getter", alt)
+			gen.Class("no-getter:" + alt)
+			rp := w.CaseFile(gen.LvlColl, nil, nil, nil, map[bool]string{true: "accept", false: "reject"}[alt == "control"])
+			rp["kind"] = "c03-no-getter"
+			switch {
+			case hung:
+				gen.Fail(t, gen.Violation{Key: "no-verdict:no-getter:" + alt, Oracle: "an altered response leads to rejection", Detail: "no verdict after 100 s", Replay: rp})
+				return
+			case alt == "control" && !v.Accepted():
+				gen.Fail(t, gen.Violation{Key: "rejects-authentic:no-getter", Oracle: "authentic collateral obtained through the default getter is accepted", Detail: v.String(), Replay: rp})
+				return
+			case alt != "control" && v.Accepted():
+				gen.Fail(t, gen.Violation{Key: "accepts-unauthentic:no-getter:" + alt, Oracle: "the values that drive the verdict are exactly those in the member whose raw bytes verify under an Intel TCB-signing certificate chaining to the trusted roots", Detail: "options without a Getter (the library's default getter downloads through net/http): " + alt + ": accepted", Replay: rp})
+				return
+			}
+		}
+	})
+	// A root certificate in an issuer-chain header that is the trusted root byte for byte EXCEPT for its public key
+	// (serial, names, validity, key identifiers and even the signature value are the genuine root's), a signing
+	// certificate issued under that key, and a document signed by it: for either document, at both levels, with the
+	// other document genuine.
+	gen.Direct(t, "root-look-alike-keeping-the-genuine-signature-bytes", func(t *testing.T) {
+		i := 0
+		for _, k := range []c03Kind{kindTcb, kindQe} {
+			for _, l := range []gen.Level{gen.LvlColl, gen.LvlCRL} {
+				i++
+				if !gen.ShardOwns(i) {
+					continue
+				}
+				w := gen.NewWorld(gen.NewPKI(gen.PKISpec{Seed: gen.PKISeeds[i%4]}), gen.NewStream(gen.Seed()+uint64(i), "c03lookalike"))
+				w.HonestCollateral()
+				// the genuine documents say OutOfDate / Revoked; the forged one says UpToDate
+				for n := range w.TcbInfo.Levels {
+					w.TcbInfo.Levels[n].Status = "OutOfDate"
+				}
+				for n := range w.QeID.Levels {
+					w.QeID.Levels[n].Status = "Revoked"
+				}
+				w.Build()
+				attacker := gen.DeriveKey("c03/look-alike-root-key")
+				fake := gen.LookAlikeKeepingSignature(w.PKI.Root, attacker)
+				signer := gen.MakeCert(gen.CertSpec{CN: gen.CNTcbSigner, KeyLabel: "c03/look-alike-signer", Serial: w.PKI.TcbSig.X.SerialNumber.Bytes(), NotBefore: gen.Wide.NotBefore, NotAfter: gen.Wide.NotAfter, CRLDP: []string{gen.RootCrlURL}}, fake)
+				good := *w
+				good.TcbInfo.Levels = append([]gen.PlatformLevel{}, w.TcbInfo.Levels...)
+				good.QeID.Levels = append([]gen.QeLevel{}, w.QeID.Levels...)
+				for n := range good.TcbInfo.Levels {
+					good.TcbInfo.Levels[n].Status = "UpToDate"
+				}
+				for n := range good.QeID.Levels {
+					good.QeID.Levels[n].Status = "UpToDate"
+				}
+				// the other document is genuinely UpToDate, so that the forged one alone decides
+				other := kindQe
+				if k.name == "qe" {
+					other = kindTcb
+				}
+				w.Resp[other.url(w)] = gen.Response{Header: w.Resp[other.url(w)].Header, Body: gen.SignedBody(other.member, other.render(&good), other.signer(w).Key)}
+				w.Resp[k.url(w)] = gen.Response{Header: map[string][]string{k.hdr: {gen.IssuerChainHeader(signer, fake)}}, Body: gen.SignedBody(k.member, k.render(&good), signer.Key)}
+				o := w.Options(l, w.NewGetter(), nil)
+				gen.Eval()
+				v := gen.Call(func() error { return verify.RawTdxQuote(w.Raw, o) })
+				gen.NonTrivial("look-alike-root", k.name, l.String())
+				gen.Class("root-look-alike:" + k.name)
+				if v.Accepted() {
+					rp := w.CaseFile(l, nil, nil, nil, "reject")
+					gen.Fail(t, gen.Violation{Key: "accepts-unauthentic:root-look-alike-keeping-the-genuine-signature-bytes:" + k.name, Oracle: "the values that drive the verdict are exactly those in the member whose raw bytes verify under an Intel TCB-signing certificate chaining to the trusted roots", Detail: fmt.Sprintf("%s signed under a root that copies the trusted root except for its public key (level %s, the other document genuine): accepted", k.name, l), Replay: rp})
+					return
+				}
+			}
+		}
+	})
+}
+
+// inProcessTransport answers HTTP requests from a world's response table (status 200; anything else 404).
+type inProcessTransport struct{ resp map[string]gen.Response }
+
+func (t inProcessTransport) RoundTrip(req *http.Request) (*http.Response, error) {
+	r, ok := t.resp[req.URL.String()]
+	if !ok || r.Err != nil {
+		return &http.Response{StatusCode: 404, Status: "404 Not Found", Header: http.Header{}, Body: io.NopCloser(bytes.NewReader(nil)), Request: req}, nil
+	}
+	h := http.Header{}
+	for k, vs := range r.Header {
+		for _, v := range vs {
+			h.Add(k, v)
+		}
+	}
+	return &http.Response{StatusCode: 200, Status: "200 OK", Header: h, Body: io.NopCloser(bytes.NewReader(r.Body)), ContentLength: int64(len(r.Body)), Request: req}, nil
 }
